@@ -87,7 +87,7 @@ def one(ctx, i, tmproot):
         oth = [k for k in KINDS if k != truth]
         pre = {oth[0]: PRESTATES[2 + (i // 3) % 3], oth[1]: PRESTATES[2 + (i // 9) % 3]}  # absent / stale / agreeing
         method = (i // 27) % 2 == 1
-        p = make_project(rng, root, truth, pre, method=method, rich=True)
+        p = make_project(rng, root, truth, pre, method=method, rich=True, tilde_ok=True)
         via = "cli" if i % 11 == 5 else "api"
         before_src = {k: (open(f).read() if os.path.exists(f) else None) for k, f in p.files.items()}
         base = {"op": OP, "truth": truth, "method": method, "via": via, "pre_states": sorted(set(pre.values())),
